@@ -113,15 +113,17 @@ func hashOf(s string) string {
 }
 
 var procStart = time.Now()
+var rnT *runner
 
 // ---- executing one history ----------------------------------------------------------------
 
 type runner struct {
-	cfg   *Config
-	w     *World
-	ids   map[string]bool
-	busy  int64 // unix nanos of the start of the running case, 0 = idle
-	limit int
+	cfg                               *Config
+	w                                 *World
+	ids                               map[string]bool
+	busy                              int64 // unix nanos of the start of the running case, 0 = idle
+	tReplay, tApply, tObserve, tJudge time.Duration
+	limit                             int
 }
 
 func newRunner(cfg *Config, base string) *runner {
@@ -146,8 +148,8 @@ func (rn *runner) watchdog() {
 			if n > rn.limit {
 				die(fmt.Sprintf("VERIF-RUNAWAY the store grew to %d raw keys during one request (no terminating request of the alphabet creates more than a handful)\n", n))
 			}
-			if time.Since(time.Unix(0, start)) > 30*time.Second {
-				die("VERIF-HANG the request did not return within 30 s\n")
+			if time.Since(time.Unix(0, start)) > 90*time.Second {
+				die("VERIF-HANG the request did not return within 90 s\n")
 			}
 		}
 	}()
@@ -168,7 +170,7 @@ func (rn *runner) replay(path []string) (Model, int) {
 		if err != nil {
 			mc.Fatal("%v", err)
 		}
-		rn.w.Apply(ev, step, links+1)
+		out := rn.w.Apply(ev, step, links+1)
 		if ev.Refused {
 			continue
 		}
@@ -177,7 +179,7 @@ func (rn *runner) replay(path []string) (Model, int) {
 		if ev.Op == "ln" {
 			links++
 		}
-		if ex.Conflict {
+		if ex.Conflict || (ev.Op == "mv" && ex.Moved != nil && out.Err != "") {
 			st := rn.w.Observe(rn.ids)
 			model.Adopt(&st)
 		}
@@ -186,13 +188,42 @@ func (rn *runner) replay(path []string) (Model, int) {
 	return model, links
 }
 
+// prepared is the state after a history, captured once per frontier item: the
+// observed state, the raw store content, the model and the link counter.  The
+// other events of the item start from the restored raw content instead of
+// replaying the history again (the first one replays; every state's canonical
+// hash is compared with the hash computed where it was first reached, which
+// cross-checks replay against restore for every explored state).
+type prepared struct {
+	pre   *State
+	snap  []RawKV
+	model Model
+	links int
+}
+
+func (rn *runner) prepare(path []string) *prepared {
+	model, links := rn.replay(path)
+	st := rn.w.Observe(rn.ids)
+	return &prepared{pre: &st, snap: rn.w.Snapshot(), model: model, links: links}
+}
+
 // transition executes path + ev and judges it.
-func (rn *runner) transition(path []string, evs string, pre *State) (res result, post State) {
+func (rn *runner) transition(path []string, evs string, pp *prepared) (res result, post State) {
 	ev, err := ParseEvent(evs)
 	if err != nil {
 		mc.Fatal("%v", err)
 	}
-	model, links := rn.replay(path)
+	t0 := time.Now()
+	var model Model
+	var links int
+	var pre *State
+	if pp != nil {
+		rn.w.Restore(pp.snap)
+		model, links, pre = pp.model.Clone(), pp.links, pp.pre
+	} else {
+		model, links = rn.replay(path)
+	}
+	t1 := time.Now()
 	if pre == nil {
 		p := rn.w.Observe(rn.ids)
 		pre = &p
@@ -200,10 +231,19 @@ func (rn *runner) transition(path []string, evs string, pre *State) (res result,
 	preModel := model.Clone()
 	out := rn.w.Apply(ev, len(path), links+1)
 	q, d := rn.w.TakeScheduled()
+	t2 := time.Now()
 	post = rn.w.Observe(rn.ids)
+	t3 := time.Now()
+	rn.tReplay += t1.Sub(t0)
+	rn.tApply += t2.Sub(t1)
+	rn.tObserve += t3.Sub(t2)
+	defer func() { rn.tJudge += time.Since(t3) }()
 	ex := model.Step(ev, func() int { return links + 1 })
 	st := &Step{Ev: ev, Pre: pre, Post: &post, PreModel: preModel, Model: model, Ex: ex, Out: out, Queued: q, Direct: d}
-	if !RefusedRename(st) && ex.Conflict {
+	if !RefusedRename(st) && (ex.Conflict || (ev.Op == "mv" && out.Err != "" && ex.Moved != nil)) {
+		// a rename that stopped half-way: the reference adopts the observed tree
+		// (C18 still demands conservation of files)
+		st.Ex.Conflict = true
 		model.Adopt(&post)
 	}
 	var acc Acc
@@ -280,7 +320,7 @@ func crashClassifier(caseJSON, tail string) (string, string) {
 	case strings.Contains(tail, "VERIF-RUNAWAY"):
 		return "request-never-returns:" + oc, "the request recursed without end (the store kept growing until the watchdog stopped the worker)"
 	case strings.Contains(tail, "VERIF-HANG"):
-		return "request-hangs:" + oc, "the request did not return within 30 s"
+		return "request-hangs:" + oc, "the request did not return within 90 s"
 	case strings.Contains(tail, "stack overflow"):
 		return "request-overflows-stack:" + oc, "the request overflowed the stack"
 	}
@@ -381,15 +421,26 @@ func Run(r *mc.Run, cfg *Config) {
 	levelSizes := []int{}
 	complete := true
 	depthDone := 0
+	searchStart := time.Now()
+	var lastLevelTime time.Duration
+	var lastLevelTrans int64
 	K := cfg.CrashBudget
 	if K <= 0 {
-		K = 2
+		K = 1
 	}
 	// runPhase executes the selected events (sel[i] = event indexes of item i) and returns the result lines per item.
-	runPhase := func(phase string, fr []item, sel [][]int) [][]result {
+	runPhase := func(phase string, fr []item, sel [][]int, split bool) [][]result {
 		var work []item
 		for i, it := range fr {
 			if len(sel[i]) == 0 {
+				continue
+			}
+			if split { // one work item per event: worker deaths then cost restarts in parallel, not in a row
+				for _, e := range sel[i] {
+					w := it
+					w.Idx, w.Run = i, []int{e}
+					work = append(work, w)
+				}
 				continue
 			}
 			w := it
@@ -432,12 +483,26 @@ func Run(r *mc.Run, cfg *Config) {
 		return byItem
 	}
 	for depth := 0; depth < maxDepth && len(frontier) > 0; depth++ {
-		if r.Expired() {
+		// budgets only ever stop the search early at a level boundary (exhaustive:false)
+		limit := 200 * time.Second
+		if !r.Quick() {
+			limit = 13 * time.Minute
+		}
+		var predicted time.Duration
+		if lastLevelTrans >= 5000 { // smaller levels are dominated by the start-up of the worker processes
+			est := 0
+			for _, it := range frontier {
+				est += len(it.Menu)
+			}
+			predicted = time.Duration(float64(lastLevelTime) * float64(est) / float64(lastLevelTrans))
+		}
+		if r.Expired() || time.Since(searchStart)+predicted > limit {
 			complete = false
-			r.NotExhaustive(fmt.Sprintf("wall-clock budget used up before level %d (levels below it are complete)", depth+1))
+			r.NotExhaustive(fmt.Sprintf("wall-clock budget: level %d not started (predicted %.0fs after %.0fs used); all levels below it are complete", depth+1, predicted.Seconds(), time.Since(searchStart).Seconds()))
 			break
 		}
 		t0 := time.Now()
+		transBefore := transitions
 		levelSizes = append(levelSizes, len(frontier))
 		// (a) probe phase: requests the statement says must be refused may instead never
 		// return; each such event text is first tried on the first K states that offer it.
@@ -453,7 +518,7 @@ func Run(r *mc.Run, cfg *Config) {
 				}
 			}
 		}
-		probeRes := runPhase(fmt.Sprintf("P%d", depth+1), frontier, probeSel)
+		probeRes := runPhase(fmt.Sprintf("P%d", depth+1), frontier, probeSel, true)
 		for key, ps := range probes {
 			dead := 0
 			for _, pe := range ps {
@@ -493,7 +558,7 @@ func Run(r *mc.Run, cfg *Config) {
 				}
 			}
 		}
-		mainRes := runPhase(fmt.Sprintf("L%d", depth+1), frontier, mainSel)
+		mainRes := runPhase(fmt.Sprintf("L%d", depth+1), frontier, mainSel, false)
 		// (c) successors
 		var next []item
 		for i, it := range frontier {
@@ -564,6 +629,7 @@ func Run(r *mc.Run, cfg *Config) {
 		fmt.Printf("%s level %d: %d states expanded, %d transitions so far, %d states, %d new frontier, %.1fs\n", cfg.ID, depth+1, len(frontier), transitions, len(seen), len(next), time.Since(t0).Seconds())
 		frontier = next
 		depthDone = depth + 1
+		lastLevelTime, lastLevelTrans = time.Since(t0), transitions-transBefore
 	}
 	if parentRunner != nil {
 		parentRunner.w.Close()
@@ -574,7 +640,7 @@ func Run(r *mc.Run, cfg *Config) {
 			ks = append(ks, k)
 		}
 		sort.Strings(ks)
-		r.NotExhaustive(fmt.Sprintf("events that never returned %d times were not offered again in deeper states: %v", cfg.CrashBudget, ks))
+		r.NotExhaustive(fmt.Sprintf("events that did not return in the first %d state(s) of a level offering them were not executed in the other states with the same kind of target: %v", K, ks))
 	}
 	r.AddStates(int64(len(seen)))
 	r.AddTransitions(transitions)
@@ -607,7 +673,7 @@ func workerBody(r *mc.Run, cfg *Config, base, phase string, frontier []item, sha
 	defer func() {
 		if os.Getenv("VERIF_FSYS_TIMING") != "" {
 			f, _ := os.OpenFile("/tmp/fsys_timing.log", os.O_CREATE|os.O_WRONLY|os.O_APPEND, 0644)
-			fmt.Fprintf(f, "%s shard %d: %d transitions in %v (process up %v)\n", phase, shard, nTrans, time.Since(tStart), time.Since(procStart))
+			fmt.Fprintf(f, "%s shard %d: %d transitions in %v (process up %v) replay=%v apply=%v observe=%v judge+canon=%v\n", phase, shard, nTrans, time.Since(tStart), time.Since(procStart), rnT.tReplay, rnT.tApply, rnT.tObserve, rnT.tJudge)
 			f.Close()
 		}
 	}()
@@ -616,6 +682,7 @@ func workerBody(r *mc.Run, cfg *Config, base, phase string, frontier []item, sha
 		debug.SetCrashOutput(cf, debug.CrashOptions{})
 	}
 	rn := newRunner(cfg, base)
+	rnT = rn
 	rn.watchdog()
 	out, err := os.OpenFile(filepath.Join(base, fmt.Sprintf("res.%s.%d.jsonl", phase, shard)), os.O_CREATE|os.O_WRONLY|os.O_APPEND, 0644)
 	if err != nil {
@@ -637,34 +704,33 @@ func workerBody(r *mc.Run, cfg *Config, base, phase string, frontier []item, sha
 		it := frontier[k]
 		i := it.Idx
 		path := splitEvents(it.Path)
-		var pre *State
+		var pp *prepared
 		if begin(caseDescr{Path: path, Ev: "(replay)"}) {
 			atomic.StoreInt64(&rn.busy, time.Now().UnixNano())
-			rn.replay(path)
-			st := rn.w.Observe(rn.ids)
+			pp = rn.prepare(path)
 			atomic.StoreInt64(&rn.busy, 0)
-			pre = &st
 			res := result{I: i, E: -1}
+			if h := hashOf(Canon(pp.pre, pp.model)); h != it.Hash {
+				res.Infra = fmt.Sprintf("replaying %v gives a state with hash %s, but it had hash %s when it was first reached: the system is not deterministic or a restored state differs from a replayed one\n%s", path, h, it.Hash, Canon(pp.pre, pp.model))
+			}
 			emit(res)
 		}
 		for _, e := range it.Run {
 			evs := it.Menu[e]
-			if pre == nil && begun >= skipN {
+			if pp == nil && begun >= skipN {
 				// restarted after a worker death inside this item: the replay case is behind us
-				rn.replay(path)
-				st := rn.w.Observe(rn.ids)
-				pre = &st
+				pp = rn.prepare(path)
 			}
 			oc := ""
-			if pre != nil {
+			if pp != nil {
 				ev, _ := ParseEvent(evs)
-				oc = OpClass(ev, pre)
+				oc = OpClass(ev, pp.pre)
 			}
 			if !begin(caseDescr{Path: path, Ev: evs, Oc: oc}) {
 				continue
 			}
 			atomic.StoreInt64(&rn.busy, time.Now().UnixNano())
-			res, _ := rn.transition(path, evs, pre)
+			res, _ := rn.transition(path, evs, pp)
 			atomic.StoreInt64(&rn.busy, 0)
 			nTrans++
 			res.I, res.E = i, e
